@@ -337,23 +337,25 @@ class SimSocket(object):
       raise _oserr(errno.EPIPE if f.kind != 'error' else f.err)
     if conn.server_closed == 'rst':
       raise _oserr(errno.EPIPE)
-    d = conn.server.send_delay(conn) if conn.server.send_delay else 0.0
-    if d and d > 0:
-      self._block(d, side='w')
-      self._check_open()
+    # The bytes are committed to the connection now (this is the send event);
+    # a stalled peer (full buffers) keeps the caller blocked and sees them later.
     data = bytes(data)
     start = len(conn.c2s)
     ev = env.emit('net.send', conn=conn.id, op=ordinal, n=len(data), start=start)
     conn.sends.append((start, start + len(data), ev['seq'], ev['vt']))
+    conn.c2s += data
     if f is not None and f.kind == 'silence':
       # bytes vanish (peer never sees them); nothing else happens
-      conn.c2s += data
       conn.consumed = len(conn.c2s)
       return
-    conn.c2s += data
+    d = conn.server.send_delay(conn) if conn.server.send_delay else 0.0
+    if d and d > 0:
+      self._block(d, side='w')
+      if self.closed:
+        raise _oserr(errno.EBADF)
     if conn.server_closed:
       return            # FIN'd peer: bytes are dropped silently
-    if conn.handler is not None:
+    if conn.handler is not None and not conn.client_closed:
       conn.handler.on_data(conn)
 
   def recv(self, n, flags=0):
